@@ -620,6 +620,18 @@ def h_unwatched_new_worker(i):
             "expected": {"future": "fails with TerminatedWorkerError (the death is detected)"}, "_hard_exit": True}
 
 
+def h_batch(i):
+    """Run one harness on a list of inputs (thorough tier: native cross-check of a contract's oracle against the real function)."""
+    fn = globals().get("h_" + i["harness"])
+    out = []
+    for case in i["cases"]:
+        try:
+            out.append(fn(case))
+        except BaseException as e:
+            out.append({"reproduced": False, "error": f"harness crashed: {e!r}"})
+    return {"reproduced": any(r.get("reproduced") for r in out), "results": out}
+
+
 def main():
     name, inputs, repo = sys.argv[1], json.loads(sys.argv[2]), sys.argv[3]
     sys.path.insert(0, repo)
